@@ -106,6 +106,9 @@ def prepare(ctx, d: Path):
     inner = make_env(ctx, d, ctx.rng, 901, [(f"#q{i}", envgen.blob(10 + i, 70 + i)) for i in range(4)], [])
     multi = make_env(ctx, d, ctx.rng, 902, [(f"#p{i}", envgen.blob(20 + i, 80 + i)) for i in range(6)], [("#dep_a", inner)])
     (d / "multi.suit").write_bytes(multi)
+    inner2 = make_env(ctx, d, ctx.rng, 903, [("#z0", envgen.blob(9, 90))], [])
+    mid2 = make_env(ctx, d, ctx.rng, 904, [("#y0", envgen.blob(12, 91))], [("#gamma.suit", inner2)])
+    (d / "multi2.suit").write_bytes(make_env(ctx, d, ctx.rng, 905, [("#x0", envgen.blob(15, 92))], [("#beta.suit", mid2)]))
     keys = signrun.Keys(d / "keys")
     (d / "keys" / "fwenc.bin").write_bytes(os.urandom(32))
     return keys
@@ -150,7 +153,8 @@ def key_of(op, fwver, cwd=1):
 def run(ctx: core.Check):
     ctx.cov["rule"] = ("schedule = sequence of operations {create (YAML), create (JSON), create via the library on a re-loaded "
                        "description, hierarchical create (dependency from a file / inline / inline reading a file that changes / inline with its "
-                       "entries permuted / inline with relative file names), parse, storage, update, MPI, cache, sign, encrypt} and environment steps "
+                       "entries permuted / inline with relative file names), parse (flat JSON; two different hierarchies into YAML with hierarchy "
+                       "expansion), storage, update, MPI, cache, sign, encrypt} and environment steps "
                        "{new file content at the same path, chdir}; all schedules of length 4 enumerated by TLC, executed back to "
                        "back in one interpreter per PYTHONHASHSEED in {0, 1, 12345, random}; references from fresh interpreters. "
                        "Distinct & non-trivial = distinct (schedule, position) pairs executed after at least one other operation.")
@@ -161,7 +165,8 @@ def run(ctx: core.Check):
              ["update", "chdir", "update", "mpi"], ["create1", "touch_fw", "create1json", "reuse1"], ["cache", "touch_fw", "cache", "create2"],
              ["cachenv", "create1", "cachenv2", "cachenv"], ["parse", "cachenv2", "chdir", "cachenv"], ["create3", "touch_fw", "create3", "create3perm"],
              ["create3perm", "create3", "touch_fw", "create3perm"], ["create3rel", "chdir", "create3rel", "create3"],
-             ["create3", "create3rel", "chdir", "create3rel"]]
+             ["create3", "create3rel", "chdir", "create3rel"], ["parsehA", "parsehB", "parsehA", "parse"],
+             ["parsehB", "parsehA", "parsehB", "parsehB"]]
     per_seed = 40 if ctx.quick else 700
     d = ctx.tmp("c18")
     keys = prepare(ctx, d)
@@ -173,7 +178,7 @@ def run(ctx: core.Check):
     for op in ("create1", "create1json", "reuse1", "create2", "cache", "encrypt", "create3", "create3perm"):
         ref_jobs += [(op, 1, [[op]]), (op, 2, [["touch_fw", op]])]
     ref_jobs += [("create3rel", 1, [["create3rel"]]), ("create3rel", 1, [["chdir", "create3rel"]])]
-    for op in ("parse", "boot", "update", "mpi", "sign", "cachenv", "cachenv2"):
+    for op in ("parse", "boot", "update", "mpi", "sign", "cachenv", "cachenv2", "parsehA", "parsehB"):
         ref_jobs.append((op, 1, [[op]]))
     ctx.note(f"Use C: {len(ref_jobs) * len(seeds)} fresh-interpreter references")
 
